@@ -30,9 +30,20 @@ import (
 // the answer TLC judges with the same reference as at the selector level: the history is
 // refresh(installed list), remove(e), add(e), ... over the universe of the registry's endpoints.
 //
+// Registry refresh: the manager's own refresher (globalManager.updateEndpoints -> doFresh -> refreshEndpoints) runs on
+// a 10 ms ticker; the scenario's registry holds every query after the first at a gate and lets exactly one through
+// per "tick" step, so refreshes happen only where the script says, through the production path.  Every reply is a
+// fresh copy in a random order that is NOT sorted by host (a registry owes nobody an order).  A tick whose reply
+// names the set the registry named before is the step "tick": the endpoint set is unchanged, so the reference's
+// installed list is unchanged and every code must stay where it was -- also when an endpoint has failed and come
+// back in between (Add appends: the list is no longer in the order a rebuild would give it).  A tick that adds a
+// spare endpoint, drops a healthy one or drops a blocked one is the step "refresh": the manager installs a new
+// list, which the harness reads from ServantProxy.Endpoints() (the manager's own account of its current set) and
+// compares, as an observation, with the registry's reply minus the endpoints that are blocked.
+//
 // Time: the health logic compares time.Now() with the adapters' timestamps; the harness moves the
 // timestamps into the past (tars.VerifFailoverShift, test-only export) instead of waiting, and runs the
-// periodic check itself (tars.VerifFailoverCheckStatus); the background tickers are quiesced.
+// periodic check itself (tars.VerifFailoverCheckStatus); the background status checker is quiesced.
 
 type mgrServer struct {
 	ln   net.Listener
@@ -109,46 +120,132 @@ func serveMgr(s *mgrServer, idx int, arr *mgrArrivals) {
 	}
 }
 
-// listRegistry answers every query with the same endpoints.
-type listRegistry struct{ eps []endpointf.EndpointF }
-
-var _ registry.Registrar = (*listRegistry)(nil)
-
-func (r *listRegistry) Registry(context.Context, *registry.ServantInstance) error   { return nil }
-func (r *listRegistry) Deregister(context.Context, *registry.ServantInstance) error { return nil }
-func (r *listRegistry) QueryServant(context.Context, string) ([]registry.Endpoint, []registry.Endpoint, error) {
-	return append([]endpointf.EndpointF(nil), r.eps...), nil, nil
+// gatedRegistry answers the first query (the manager's initial refresh) at once; every later query -- they come from
+// the manager's refresh ticker -- waits until the scenario grants a tick.  Replies are fresh slices in random,
+// never host-sorted order.
+type gatedRegistry struct {
+	mu      sync.Mutex
+	eps     []endpointf.EndpointF // the registry's active endpoints
+	rng     *rand.Rand
+	tokens  int  // ticks granted and not yet taken
+	arrived int  // queries that have arrived
+	served  int  // arrival number of the last query answered
+	free    bool // scenario over: answer everything at once
 }
-func (r *listRegistry) QueryServantBySet(ctx context.Context, id, _ string) ([]registry.Endpoint, []registry.Endpoint, error) {
+
+var _ registry.Registrar = (*gatedRegistry)(nil)
+
+func (r *gatedRegistry) Registry(context.Context, *registry.ServantInstance) error   { return nil }
+func (r *gatedRegistry) Deregister(context.Context, *registry.ServantInstance) error { return nil }
+func (r *gatedRegistry) QueryServant(context.Context, string) ([]registry.Endpoint, []registry.Endpoint, error) {
+	r.mu.Lock()
+	r.arrived++
+	me := r.arrived
+	for me > 1 && r.tokens == 0 && !r.free {
+		r.mu.Unlock()
+		time.Sleep(500 * time.Microsecond)
+		r.mu.Lock()
+	}
+	if me > 1 && !r.free {
+		r.tokens--
+	}
+	r.served = me
+	out := r.shuffled()
+	r.mu.Unlock()
+	return out, nil, nil
+}
+func (r *gatedRegistry) QueryServantBySet(ctx context.Context, id, _ string) ([]registry.Endpoint, []registry.Endpoint, error) {
 	return r.QueryServant(ctx, id)
 }
 
-type mgrAction struct {
-	block bool
-	pos   int // index into the reference list (block) / into the blocked list (recover), reduced modulo its length
+// shuffled: a copy of the list in a random order that is not ascending by host (when there is more than one host)
+func (r *gatedRegistry) shuffled() []endpointf.EndpointF {
+	out := append([]endpointf.EndpointF(nil), r.eps...)
+	for try := 0; try < 20; try++ {
+		r.rng.Shuffle(len(out), func(i, j int) { out[i], out[j] = out[j], out[i] })
+		asc := true
+		for i := 1; i < len(out); i++ {
+			asc = asc && out[i-1].Host <= out[i].Host
+		}
+		if !asc || len(out) < 2 {
+			break
+		}
+	}
+	return out
 }
 
-// mgrScripts: which endpoints fail and recover, by position in the selector's installed list -- the first, a middle
-// and the last position behave differently in code that edits lists in place.
+func (r *gatedRegistry) set(eps []endpointf.EndpointF) {
+	r.mu.Lock()
+	r.eps = append([]endpointf.EndpointF(nil), eps...)
+	r.mu.Unlock()
+}
+
+// tick lets exactly one refresh of the manager through and returns when it has been carried out: the refresher is
+// one goroutine, so the arrival of its NEXT query (which waits at the gate) means the previous refresh has returned.
+func (r *gatedRegistry) tick() error {
+	r.mu.Lock()
+	r.tokens++
+	r.mu.Unlock()
+	deadline := time.Now().Add(10 * time.Second)
+	for {
+		r.mu.Lock()
+		done := r.tokens == 0 && r.arrived > r.served
+		r.mu.Unlock()
+		if done {
+			return nil
+		}
+		if time.Now().After(deadline) {
+			return fmt.Errorf("the manager's refresher did not query the registry within 10 s (refresh interval %d ms)",
+				tars.GetClientConfig().RefreshEndpointInterval)
+		}
+		time.Sleep(time.Millisecond)
+	}
+}
+
+func (r *gatedRegistry) release() {
+	r.mu.Lock()
+	r.free = true
+	r.mu.Unlock()
+}
+
+type mgrAction struct {
+	kind string // block recover tick tick-add tick-drop tick-drop-blocked
+	pos  int    // index into the reference list (block, tick-drop) / the blocked list (recover, tick-drop-blocked) / the
+	// spare list (tick-add), reduced modulo its length
+}
+
+// mgrScript: which endpoints fail and recover, by position in the selector's installed list -- the first, a middle
+// and the last position behave differently in code that edits lists in place -- and where the registry is asked again:
+// with the same set (before a failure, while an endpoint is blocked, after it has come back), with a spare endpoint
+// added or a healthy one dropped while another is blocked and still listed, with a blocked one dropped.
 func mgrScript(pattern int, rng *rand.Rand) []mgrAction {
 	switch pattern % 4 {
-	case 0: // the first endpoint fails and comes back, then a middle one fails
-		return []mgrAction{{true, 0}, {false, 0}, {true, 1}}
-	case 1: // a middle one and the first one fail, both come back one after the other
-		return []mgrAction{{true, 1}, {true, 0}, {false, 0}, {false, 0}}
-	case 2: // the last one fails and comes back, then the first fails
-		return []mgrAction{{true, -1}, {false, 0}, {true, 0}, {false, 0}}
+	case 0: // the first endpoint fails and comes back, the registry repeats itself; then a middle one fails
+		return []mgrAction{{"tick", 0}, {"block", 0}, {"recover", 0}, {"tick", 0}, {"tick", 0}, {"block", 1}, {"tick", 0}}
+	case 1: // a middle one and the first one fail; the registry grows while both are out; both come back one after the other
+		return []mgrAction{{"block", 1}, {"block", 0}, {"tick-add", 0}, {"recover", 0}, {"tick", 0}, {"recover", 0}, {"tick", 0},
+			{"tick-drop", 1}, {"tick", 0}}
+	case 2: // the last one fails; the registry drops another endpoint; the failed one comes back; the first fails and is dropped
+		return []mgrAction{{"block", -1}, {"tick-drop", 0}, {"recover", 0}, {"tick", 0}, {"block", 0}, {"tick-drop-blocked", 0},
+			{"tick-add", 0}, {"tick", 0}}
 	}
 	var out []mgrAction
-	for i := 0; i < 5; i++ {
-		out = append(out, mgrAction{rng.Intn(3) != 0, rng.Intn(8)})
+	kinds := []string{"block", "block", "recover", "recover", "tick", "tick", "tick-add", "tick-drop", "tick-drop-blocked"}
+	for i := 0; i < 8; i++ {
+		out = append(out, mgrAction{kinds[rng.Intn(len(kinds))], rng.Intn(8)})
 	}
 	return out
 }
 
 type mgrStats struct {
 	Scenarios, Blocks, Recoveries, Calls, Steps int
-	Errors                                      []string // scenarios that could not be completed (what was recorded until then is still judged)
+	TicksSameSet, TicksSameSetAfterRecovery     int // refreshes whose reply named the same endpoints (in another order)
+	TicksChangedSet, TicksWhileBlocked          int // refreshes that added / dropped an endpoint; ... while an endpoint was blocked
+	RegistryQueries                             int
+	// observations (the statement does not say which endpoints a refresh installs, nor in which order)
+	ActiveSetNotReplyMinusBlocked []string // the manager's list after a refresh is not the reply minus the blocked endpoints
+	ReorderedWithSameActiveSet    int      // a refresh (registry set changed) left the active set as it was and re-ordered the list
+	Errors                        []string // scenarios that could not be completed (what was recorded until then is still judged)
 }
 
 // mgrScenarios runs the registry-fed scenarios and appends their universes and histories.
@@ -190,9 +287,12 @@ func mgrScenarios(seed int64, rng *rand.Rand, perKind int, uid, hid *int, unis *
 func mgrScenario(seed int64, rng *rand.Rand, si int, kind string, pattern int, servers []*mgrServer, arr *mgrArrivals,
 	uid, hid *int, unis *[]*Universe, hists *[]History, stats *mgrStats) error {
 	weighted := kind == "ketamaw" || kind == "modw"
-	sub := rng.Perm(len(servers))[:4+rng.Intn(2)] // 4 or 5 endpoints
+	perm := rng.Perm(len(servers))
+	nreg := 4 + rng.Intn(2) // the registry starts with 4 or 5 endpoints; the other servers are spares it may add later
+	sub := perm             // universe: every server, the registry's initial ones first
 	var eps []EPDesc
-	reg := &listRegistry{}
+	var epf []endpointf.EndpointF
+	reg := &gatedRegistry{rng: rand.New(rand.NewSource(rng.Int63()))}
 	for _, sidx := range sub {
 		s := servers[sidx]
 		d := EPDesc{Host: s.host, Port: s.port, Weight: 0, WType: 0}
@@ -200,15 +300,33 @@ func mgrScenario(seed int64, rng *rand.Rand, si int, kind string, pattern int, s
 			d.Weight, d.WType = int32(1+rng.Intn(40)), static
 		}
 		eps = append(eps, d)
-		reg.eps = append(reg.eps, endpointf.EndpointF{Host: s.host, Port: s.port, Timeout: 3000, Istcp: endpoint.TCP,
+		epf = append(epf, endpointf.EndpointF{Host: s.host, Port: s.port, Timeout: 3000, Istcp: endpoint.TCP,
 			Weight: d.Weight, WeightType: d.WType})
 	}
+	var regSet []int // endpoints the registry names
+	for e := 1; e <= nreg; e++ {
+		regSet = append(regSet, e)
+	}
+	var spare []int
+	for e := nreg + 1; e <= len(sub); e++ {
+		spare = append(spare, e)
+	}
+	publish := func() {
+		var l []endpointf.EndpointF
+		for _, e := range regSet {
+			l = append(l, epf[e-1])
+		}
+		reg.set(l)
+	}
+	publish()
+	defer reg.release()
 	obj := fmt.Sprintf("C14.Mgr%d.Obj%d", seed, si)
 	u := buildUniverse(*uid+1, kind, "e2e registry "+obj, eps, rng, 12, 8)
 	comm := tars.NewCommunicator(tars.Registrar(reg))
 	sp := tars.NewServantProxy(comm, obj)
 	sp.TarsSetTimeout(3000)
 	defer tars.VerifFailoverClose(sp)
+	defer func() { reg.mu.Lock(); stats.RegistryQueries += reg.served; reg.mu.Unlock() }()
 
 	nameOf := func(e int) string { return fmt.Sprintf("%s:%d", u.EPs[e-1].Host, u.EPs[e-1].Port) }
 	srvOf := func(e int) *mgrServer { return servers[sub[e-1]] }
@@ -220,8 +338,8 @@ func mgrScenario(seed int64, rng *rand.Rand, si int, kind string, pattern int, s
 	for _, ep := range sp.Endpoints() {
 		list = append(list, identifyE2E(u, *ep))
 	}
-	if len(list) != len(eps) {
-		return fmt.Errorf("manager installed %d endpoints, registry has %d", len(list), len(eps))
+	if len(list) != len(regSet) {
+		return fmt.Errorf("manager installed %d endpoints, registry has %d", len(list), len(regSet))
 	}
 	installed := append([]int{}, list...)
 	h := History{U: u.ID, Label: "e2e-mgr-" + kind}
@@ -320,9 +438,110 @@ func mgrScenario(seed int64, rng *rand.Rand, si int, kind string, pattern int, s
 		return err
 	}
 	var blocked []int
+	recovered := false // an endpoint has come back since the manager last installed a list
+	without := func(l []int, e int) []int {
+		var out []int
+		for _, m := range l {
+			if m != e {
+				out = append(out, m)
+			}
+		}
+		return out
+	}
+	sameSet := func(a, b []int) bool {
+		if len(a) != len(b) {
+			return false
+		}
+		for _, x := range a {
+			if indexOf(b, x) < 0 {
+				return false
+			}
+		}
+		return true
+	}
+	// refreshTick lets the manager refresh once; changed: the registry's set differs from the one it named before
+	refreshTick := func(changed bool) error {
+		publish()
+		if err := reg.tick(); err != nil {
+			return err
+		}
+		if len(blocked) > 0 {
+			stats.TicksWhileBlocked++
+		}
+		if !changed {
+			// the same endpoints in another order: nothing is installed, the reference keeps its list
+			stats.TicksSameSet++
+			if recovered {
+				stats.TicksSameSetAfterRecovery++
+			}
+			return route(Step{Op: "tick"})
+		}
+		stats.TicksChangedSet++
+		var now []int
+		for _, ep := range sp.Endpoints() {
+			now = append(now, identifyE2E(u, *ep))
+		}
+		want := append([]int{}, regSet...)
+		for _, e := range blocked {
+			want = without(want, e)
+		}
+		if !sameSet(now, want) {
+			stats.ActiveSetNotReplyMinusBlocked = append(stats.ActiveSetNotReplyMinusBlocked,
+				fmt.Sprintf("scenario %d: registry %v, blocked %v, manager's endpoints %v", si, regSet, blocked, now))
+		}
+		if sameSet(now, list) && fmt.Sprint(now) != fmt.Sprint(list) {
+			stats.ReorderedWithSameActiveSet++
+		}
+		list = append([]int{}, now...)
+		recovered = false
+		return route(Step{Op: "refresh", Eps: append([]int{}, now...)})
+	}
 	for _, a := range mgrScript(pattern, rng) {
 		last := h.Steps[len(h.Steps)-1]
-		if a.block {
+		switch a.kind {
+		case "tick":
+			if err := refreshTick(false); err != nil {
+				return err
+			}
+			continue
+		case "tick-add":
+			if len(spare) == 0 {
+				continue
+			}
+			i := a.pos % len(spare)
+			regSet = append(regSet, spare[i])
+			spare = append(append([]int{}, spare[:i]...), spare[i+1:]...)
+			if err := refreshTick(true); err != nil {
+				return err
+			}
+			continue
+		case "tick-drop":
+			if len(list) <= 3 {
+				continue
+			}
+			e := list[((a.pos%len(list))+len(list))%len(list)]
+			regSet = without(regSet, e)
+			spare = append(spare, e)
+			if err := refreshTick(true); err != nil {
+				return err
+			}
+			continue
+		case "tick-drop-blocked":
+			if len(blocked) == 0 {
+				continue
+			}
+			e := blocked[a.pos%len(blocked)]
+			// the manager forgets the endpoint's adapter with it: should the registry name it again, it is a new endpoint
+			blocked = without(blocked, e)
+			atomic.StoreInt32(&srvOf(e).mute, 0)
+			regSet = without(regSet, e)
+			spare = append(spare, e)
+			if err := refreshTick(true); err != nil {
+				return err
+			}
+			continue
+		}
+		if a.kind == "block" {
 			if len(list) <= 2 {
 				continue // keep at least two endpoints in rotation
 			}
@@ -410,6 +629,7 @@ func mgrScenario(seed int64, rng *rand.Rand, si int, kind string, pattern int, s
 			}
 			blocked = append(append([]int{}, blocked[:bi]...), blocked[bi+1:]...)
 			list = append(list, e)
+			recovered = true
 			stats.Recoveries++
 			if err := route(Step{Op: "add", E: e}); err != nil {
 				return err
